@@ -67,6 +67,49 @@ func c06WaitOrder(c *Check, P string, r *RouterRoles2) {
 		}
 	}
 	c.Floor(P+".O1", "wait for in-flight invocations", n, 1)
+	// the in-flight counter is raised (by the run loops) and waited for (by Close) under one mutex — a WaitGroup must not
+	// see Add and Wait at the same time when it is at zero — and that mutex is not held while the loops are waited
+	// for: a loop that has to register one more invocation would block on it and never end
+	var addLocks []string
+	nadd := 0
+	for _, fn := range r.Funcs {
+		for _, cl := range CallsTo(fn, nWGAdd) {
+			if r.LA.LockID(Receiver(cl)) != r.WRun {
+				continue
+			}
+			nadd++
+			held := r.LA.Held(cl)
+			for lid, m := range held {
+				if m == 'W' {
+					addLocks = append(addLocks, lid)
+				}
+			}
+			c.Report(len(held) > 0, P+".O1", "IN-FLIGHT-COUNTER-SERIALISED", fn, cl.Pos(), "Add on the in-flight counter", "an invocation is registered with the counter's mutex held", "held: "+held.String())
+		}
+	}
+	c.Floor(P+".O1", "Add on the in-flight counter", nadd, 1)
+	for _, fn := range r.Funcs {
+		for _, w := range r.waitsOn(fn, r.WRun) {
+			held := r.LA.Held(w)
+			ok := false
+			for _, lid := range addLocks {
+				if held[lid] == 'W' {
+					ok = true
+				}
+			}
+			c.Report(ok, P+".O1", "IN-FLIGHT-COUNTER-SERIALISED", fn, w.Pos(), "Wait on the in-flight counter", "Close waits for the in-flight invocations with the same mutex held under which they are registered", "held: "+held.String())
+		}
+		for _, lw := range r.waitsOn(fn, r.WLoop) {
+			held := r.LA.Held(lw)
+			var bad []string
+			for _, lid := range addLocks {
+				if _, has := held[lid]; has {
+					bad = append(bad, lid)
+				}
+			}
+			c.Report(len(bad) == 0, P+".O1", "LOOPS-AWAITED-WITHOUT-THE-COUNTER-MUTEX", fn, lw.Pos(), "Wait for the handler loops", "the handler loops are waited for without the in-flight counter's mutex: a loop that still has a message to dispatch needs it to register the invocation", "held: "+held.String())
+		}
+	}
 	// both waits are part of what Close waits for: the wait helper's family contains them
 	fam := WithStarted(r.WaitFn)
 	nl, nr := 0, 0
